@@ -1187,3 +1187,59 @@ Theorem abandon_only_flushes evs :
   let s := R evs in
   step s Abandon = (set_staged (set_now s (now s + 1)) 0, out0).
 Proof. reflexivity. Qed.
+
+(* ---- the response-processing window ([step_window]) ----------------------------------------- *)
+Lemma send_initiation_latch s : latch (fst (send_initiation s)) = latch s.
+Proof. unfold send_initiation. destruct (rate_limited s); reflexivity. Qed.
+
+Lemma send_staged_latch s : latch (fst (fst (send_staged s))) = latch s.
+Proof.
+  unfold send_staged. destruct (staged s =? 0); [reflexivity|].
+  destruct (cur s) as [k|].
+  - destruct (reject_after_time <=? age s k).
+    + pose proof (send_initiation_latch s) as H. destruct (send_initiation s). exact H.
+    + destruct (initiator k && (rekey_after_time <? age s k)); [|reflexivity].
+      pose proof (send_initiation_latch (set_staged s 0)) as H. destruct (send_initiation (set_staged s 0)). exact H.
+  - pose proof (send_initiation_latch s) as H. destruct (send_initiation s). exact H.
+Qed.
+
+(* an accepted response leaves the receive-side latch clear: timersHandshakeComplete runs after the key is installed *)
+Lemma respond_clears_latch s k r :
+  o_acc (snd (step s (Respond k r))) = true -> latch (fst (step s (Respond k r))) = false.
+Proof.
+  unfold step, do_respond. set (s0 := set_now s (now s + 1)).
+  destruct (nth_error (inits s0) k) as [i|]; [|discriminate].
+  match goal with |- context [if ?c then _ else _] => destruct c end; [|discriminate].
+  intros _.
+  match goal with |- context [send_staged ?x] => pose proof (send_staged_latch x) as H; destruct (send_staged x) as [[s4 sent] i1] end.
+  cbn [fst snd] in *. rewrite H.
+  match goal with |- context [if ?c then _ else _] => destruct c end; reflexivity.
+Qed.
+
+(* Whatever is handled inside the window (a data message under the old key that sets the latch, a timer's
+   SendHandshakeInitiation, ...): if the session begins, the device holds the new initiator key (a new session id) as current,
+   no unconfirmed key, and the per-session latch is CLEAR -- the new session re-keys on receive after
+   165 s like any other (initiator_rekeys_after_165_recv applies to the state reached: it is R (evs ++ [pre; Respond ..])). *)
+Theorem window_completion_starts_fresh evs pre k r :
+  let s := R evs in
+  let s' := fst (step_window s pre k r) in
+  o_acc (snd (step_window s pre k r)) = true ->
+  latch s' = false /\ next s' = None /\ hs s' = None /\
+  (exists c, cur s' = Some c /\ initiator c = true /\ ridx c = r /\ id c = nsess (fst (step s pre))) /\
+  exists k', s' = R (evs ++ [pre; Respond k' r]).
+Proof.
+  intros s s'. subst s'. unfold step_window.
+  destruct (step s pre) as [s1 o1] eqn:E1.
+  set (k' := if o_init o1 then S k else k).
+  destruct (step s1 (Respond k' r)) as [s2 o2] eqn:E2. cbn [fst snd merge_out o_acc].
+  intros Hacc.
+  assert (Hs1 : s1 = R (evs ++ [pre])) by (rewrite R_snoc; fold s; rewrite E1; reflexivity).
+  pose proof (initiator_completion_rotates (evs ++ [pre]) k' r) as Hrot. cbv zeta in Hrot.
+  rewrite <- Hs1, E2 in Hrot. cbn [fst snd] in Hrot.
+  destruct (Hrot Hacc) as (i & _ & _ & Hc & Hn & _ & _ & _ & _ & Hh & _).
+  pose proof (respond_clears_latch s1 k' r) as Hl. rewrite E2 in Hl. cbn [fst snd] in Hl.
+  split; [exact (Hl Hacc)|]. split; [exact Hn|]. split; [exact Hh|]. split.
+  - eexists. split; [exact Hc|]. cbn [initiator ridx id]. repeat split; reflexivity.
+  - exists k'. replace (evs ++ [pre; Respond k' r]) with ((evs ++ [pre]) ++ [Respond k' r]) by (rewrite <- app_assoc; reflexivity).
+    rewrite R_snoc, <- Hs1, E2. reflexivity.
+Qed.
